@@ -268,6 +268,46 @@ def h_diff(en, x, *a, **k):
   return E.SymSeq(z3.simplify(E.to_z3(x.length) - 1), lambda i: x.get(E.to_z3(i) + 1) - x.get(i), None, f'diff({x.name})')
 
 
+def _install_at(en):
+  """x.at[idx].set(v) / .add(v) / .multiply(v): JAX functional update of one in-range position or slice (A8).  An index that cannot
+  be shown in range is outside the subset (JAX drops or clamps such updates; not modelled)."""
+  def at_attr(en_, seq):
+    return E.Obj(kind='at', seq=seq)
+
+  def sub_at(en_, holder, idx):
+    seq = holder.seq
+
+    def upd(combine, label):
+      def fn(en__, v):
+        new = E.SymSeq(seq.length, seq.get, seq.sort, seq.name + '.at.' + label)
+        if isinstance(idx, slice):
+          if combine is not None:
+            raise E.Unsupported('.at[slice].add')
+          en__.store_subscript(new, idx, v, None)
+          return new
+        k = E.to_z3(idx)
+        n = E.to_z3(seq.length)
+        if en__.truth(k < 0):
+          k = k + n
+        if not en__.truth(z3.And(k >= 0, k < n)):
+          raise E.Unsupported('.at[idx] with an index not provably in range')
+        cur = seq.get(k)
+        en__.store_subscript(new, k, v if combine is None else combine(_num(cur), _num(v)), None)
+        return new
+      return E.SymCallable(fn, f'.at[idx].{label} (functional update, A8)')
+    return E.Obj(kind='at-index', set=upd(None, 'set'), add=upd(lambda a, b: a + b, 'add'), multiply=upd(lambda a, b: a * b, 'multiply'))
+  en.libspec[('attr', 'SymSeq', 'at')] = (None, at_attr)
+  prev = en.libspec.get(('subscript', 'Obj'))
+
+  def sub_obj(en_, obj, idx):
+    if getattr(obj, 'kind', None) == 'at':
+      return sub_at(en_, obj, idx)
+    if prev:
+      return prev[1](en_, obj, idx)
+    raise E.Unsupported('subscript of abstract object')
+  en.libspec[('subscript', 'Obj')] = (None, sub_obj)
+
+
 def install(en: E.Engine):
   import numpy as np
   import jax.numpy as jnp
@@ -288,5 +328,6 @@ def install(en: E.Engine):
     _reg(en, mod.array, h_array, f'{nm}.array')
     _reg(en, mod.asarray, h_array, f'{nm}.asarray')
     _reg(en, mod.diff, h_diff, f'{nm}.diff')
+  _install_at(en)
   en.array_mode = True
   en.elementwise = True       # numpy division semantics (no ZeroDivisionError)
